@@ -93,13 +93,20 @@ class Ctx:
         self.name, self.ic, self.N, self.o = case['name'], case['icut'], case['N'], case['origin']
         self.crys, self.chem, self.sitelist, self.jn = catalog.network(self.name, self.ic)
         self.M = ps.PairModel(self.crys, self.chem, self.jn)
-        self.viol, self.seen, self.ncmp = [], set(), 0
+        self.seen, self.ncmp, self.per = set(), 0, {}
 
     def bad(self, oracle, what, detail=None):
         key = '{}:c{}:N{}:o{}:{}'.format(self.name, self.ic, self.N, self.o, what)
         if (oracle, key) in self.seen: return
         self.seen.add((oracle, key))
-        self.viol.append({'oracle': oracle, 'key': key, 'detail': detail, 'case': self.case})
+        self.per.setdefault(oracle, []).append({'oracle': oracle, 'key': key, 'detail': detail, 'case': self.case})
+
+    @property
+    def viol(self):
+        """at most 6 signatures per oracle and case: the lexicographically smallest keys (hash-seed independent choice)"""
+        out = []
+        for o in sorted(self.per): out += sorted(self.per[o], key=lambda v: v['key'])[:6]
+        return out
 
 
 def evaluate(case):
@@ -141,9 +148,8 @@ def evaluate(case):
     cx.ncmp += Nv * Nv
     dev = np.abs(gram - np.eye(Nv))
     if Nv and dev.max() > TOL:
-        a, b = np.unravel_index(np.argmax(dev), dev.shape)
-        lab = sorted([M.desc(vstar_orbit[a]), M.desc(vstar_orbit[b])])
-        cx.bad('gram', 'stars:' + '|'.join(lab), {'value': float(gram[a, b]), 'diagonal': bool(a == b)})
+        lab, a, b = min(('|'.join(sorted([M.desc(vstar_orbit[a]), M.desc(vstar_orbit[b])])), int(a), int(b)) for a, b in np.argwhere(dev > TOL))
+        cx.bad('gram', 'stars:' + lab, {'value': float(gram[a, b]), 'diagonal': bool(a == b), 'n_bad': int((dev > TOL).sum())})
 
     # ---- equivariance: cart(g) v(s) = v(g s)
     images = np.zeros((M.nG, n), dtype=int)
@@ -195,8 +201,8 @@ def evaluate(case):
         else:
             d = np.abs(V.outer - outer_ref).max(axis=(0, 1))
             if d.max() > 1e-8 + TOL:    # zeroclean() may drop entries below 1e-8
-                a, b = np.unravel_index(np.argmax(d), d.shape)
-                cx.bad('outer', 'stars:' + '|'.join(sorted([M.desc(vstar_orbit[a]), M.desc(vstar_orbit[b])])), {'max_dev': float(d.max())})
+                lab = min('|'.join(sorted([M.desc(vstar_orbit[a]), M.desc(vstar_orbit[b])])) for a, b in np.argwhere(d > 1e-8 + TOL))
+                cx.bad('outer', 'stars:' + lab, {'max_dev': float(d.max())})
             o2 = V.generateouter()
             if not np.array_equal(o2, V.outer): cx.bad('outer', 'generateouter-differs-from-stored')
 
@@ -216,8 +222,10 @@ def evaluate(case):
         scale = max(1.0, float(np.abs(want).max()))
         d = np.abs(got - want)
         if d.max() > TOL * scale:
-            ix = np.unravel_index(np.argmax(d), d.shape)
-            cx.bad(oracle, what_fn(ix), {'pkg': float(got[ix]), 'ref': float(want[ix]), 'n_bad': int((d > TOL * scale).sum())})
+            # hash-seed independent choice of the reported entry: smallest label among all failing entries
+            badix = [tuple(int(v) for v in ix) for ix in np.argwhere(d > TOL * scale)]
+            lab, ix = min((what_fn(ix), ix) for ix in badix)
+            cx.bad(oracle, lab, {'pkg': float(got[ix]), 'ref': float(want[ix]), 'n_bad': len(badix), 'max_dev': float(d.max())})
 
     def call(what, fn, nclasses):
         """run one expansion routine; an exception escaping it is a violation of its own (the other expansions go on)"""
@@ -227,8 +235,9 @@ def evaluate(case):
             cx.bad('exception', '{}:{}{}'.format(what, type(e).__name__, ':empty-network' if nclasses == 0 else ''), repr(e))
             return None
 
-    lab2 = lambda ix: 'stars:' + '|'.join(sorted([M.desc(vstar_orbit[ix[0]]), M.desc(vstar_orbit[ix[1]])]))
-    lab1 = lambda ix: 'star:' + M.desc(vstar_orbit[ix[0]])
+    vdesc = [M.desc(r) for r in vstar_orbit]
+    lab2 = lambda ix: 'stars:' + '|'.join(sorted([vdesc[ix[0]], vdesc[ix[1]]]))
+    lab1 = lambda ix: 'star:' + vdesc[ix[0]]
     labD = lambda ix: 'tensor'
 
     # ---------------------------------------------------------------- GF expansion
@@ -379,7 +388,7 @@ def evaluate(case):
         compare('folddown', OSVB, vb, lambda ix: elem + ':OS_VB')
         ext = np.zeros((len(want_OS), n, dim))     # the site vector field extended to every pair state
         for k, s in enumerate(st): ext[:, k, :] = vb[:, s[attr], :]
-        compare('folddown', fold, np.einsum('qkx,akx->qa', ext, F), lambda ix: elem + ':folddown:star:' + M.desc(vstar_orbit[ix[1]]))
+        compare('folddown', fold, np.einsum('qkx,akx->qa', ext, F), lambda ix: elem + ':folddown:star:' + vdesc[ix[1]])
 
     res['transitions'] += cx.ncmp
     res['nontrivial'] = 1 if (special > 0 and len(om1) > 0) else 0
